@@ -152,6 +152,44 @@ mod verif_kani {
         assert!(best_index >= 1 && best_index < N, "C20.pettitt_split_inside_series");
     }
 
+    static mut SEEN_Z: Option<f64> = None;
+    fn stub_two_sided_p_recording(z: f64) -> f64 {
+        unsafe { SEEN_Z = Some(z) };
+        stub_two_sided_p(z)
+    }
+
+    /// Normal approximation of the Mann-Whitney test: the continuity-corrected statistic handed to the normal tail
+    /// is max(|U - mean| - 1/2, 0) / sigma: never negative, exactly zero when the two U statistics balance
+    /// (p = "no evidence"), and the tail is not consulted when the variance vanishes.
+    #[kani::proof]
+    #[kani::stub(crate::normal::two_sided_p_from_z, stub_two_sided_p_recording)]
+    fn normal_mann_whitney_statistic_contract() {
+        let n1: usize = kani::any();
+        let n2: usize = kani::any();
+        kani::assume(n1 >= 1 && n1 <= 64 && n2 >= 1 && n2 <= 64);
+        // rank sums are multiples of 1/2 between the minimum and maximum attainable
+        let twice: usize = kani::any();
+        kani::assume(twice >= n1 * (n1 + 1) && twice <= n1 * (n1 + 1) + 2 * n1 * n2);
+        let rank_sum_left = (twice as f64) / 2.0;
+        let tie_term: f64 = kani::any();
+        kani::assume(tie_term >= 0.0 && tie_term <= 1.0e9);
+        let p = normal_mann_whitney_p(n1, n2, rank_sum_left, tie_term);
+        assert!(p >= MIN_P_VALUE && p <= NO_EVIDENCE, "C20.p_value_in_reportable_range");
+        let u1 = rank_sum_left - (n1 * (n1 + 1)) as f64 / 2.0;
+        let mean = (n1 * n2) as f64 / 2.0;
+        let dist = (u1 - mean).abs();
+        #[allow(static_mut_refs)]
+        match unsafe { SEEN_Z } {
+            None => assert!(p == NO_EVIDENCE, "C20.mw_normal_no_evidence_when_variance_vanishes"),
+            Some(z) => {
+                assert!(z >= 0.0, "C20.mw_normal_statistic_never_negative");
+                assert!((z == 0.0) == (dist <= 0.5), "C20.mw_normal_balanced_samples_give_zero_statistic (continuity correction floors at 0)");
+            }
+        }
+        kani::cover!(dist == 0.0 && unsafe { SEEN_Z }.is_some());
+        kani::cover!(dist > 0.5);
+    }
+
     fn stub_two_sided_p(_z: f64) -> f64 {
         let p: f64 = kani::any();
         kani::assume(p >= MIN_P_VALUE && p <= NO_EVIDENCE);
